@@ -546,6 +546,8 @@ func runC16(p *core.Prog, r *core.Report) {
 	// a platform-specific result is cached under a key that distinguishes everything the selection reads (shared with C18.R7)
 	lossyKeyRule(p, r, "C16.R6")
 	c16R7(p, r)
+	c16R8(p, r)
+	c16R9(p, r)
 }
 
 // c16R7: what a function literal remembers across its calls does not depend on the call that
@@ -914,5 +916,101 @@ func c16R3R4(p *core.Prog, r *core.Report) {
 	}
 	if n == 0 {
 		r.MissingAnchor(rule3, "a loop that folds platform.Better over a list")
+	}
+}
+
+// c16R8: "among compatible entries none that the ordering ranks strictly better is passed over".
+// The ranking only sees what it is handed: the platform lookup of a manifest gives the ranked search
+// every entry of the index. A pre-filter (images first, artifacts as a fall-back) makes the result
+// depend on something the ordering does not rank, and an exact match outside the subset is passed
+// over for a merely compatible entry inside it.
+func c16R8(p *core.Prog, r *core.Report) {
+	const rule = "C16.R8"
+	r.Rule(rule, "the ranked search sees the whole index: in types/manifest, the list handed to descriptor.DescriptorListSearch together with a platform is the index's own list (its Manifests field or the result of GetManifestList), never a list built or filtered locally", 1)
+	n := 0
+	for _, fn := range pkgFuncs(p, "types/manifest") {
+		lab := labeler{}
+		core.Calls(fn, func(c ssa.CallInstruction) {
+			cal := core.Callee(c)
+			if cal == nil || !core.IsModFunc(cal, "types/descriptor", "DescriptorListSearch") || len(c.Common().Args) < 1 {
+				return
+			}
+			n++
+			ok := core.AllOrigins(core.Origins(c.Common().Args[0], core.SliceOpts{Helpers: core.Helpers(fn, 2)}), func(o core.Origin) bool {
+				if o.Kind == core.OField {
+					return true // the index's own list (a field of the manifest the method belongs to)
+				}
+				return o.Kind == core.OCall && o.Call.Call.IsInvoke() && o.Call.Call.Method.Name() == "GetManifestList"
+			})
+			r.Check(ok, rule, p.FuncName(fn), lab.next("list handed to the ranked search"), p.Pos(c.Pos()),
+				"the list searched is not (only) the index's own list of entries: an entry left out of it cannot win although the ordering ranks it best")
+		})
+	}
+	if n == 0 {
+		r.MissingAnchor(rule, "DescriptorListSearch in types/manifest")
+	}
+}
+
+// c16R9: "the documented aliases map to one canonical value" also for the short notations that Parse
+// completes from the local platform: the fields of the parsed platform are compared with the local
+// platform's (which are canonical) only after they have been normalised themselves — x86_64 compared
+// raw with amd64 does not match, and the alias ends up without the variant its canonical spelling gets.
+func c16R9(p *core.Prog, r *core.Report) {
+	const rule = "C16.R9"
+	r.Rule(rule, "normalise before comparing with the local platform: in platform.Parse every comparison of a field of the parsed platform with a field of another platform value is dominated by the normalize() call on the parsed platform", 1)
+	fn := p.Func("types/platform", "Parse")
+	if fn == nil {
+		r.MissingAnchor(rule, "types/platform.Parse")
+		return
+	}
+	pt := p.Named("types/platform", "Platform")
+	baseOf := func(v ssa.Value) ssa.Value {
+		// the struct (cell or value) a string field is read from
+		switch x := v.(type) {
+		case *ssa.UnOp:
+			if fa, ok := x.X.(*ssa.FieldAddr); ok && x.Op == token.MUL && core.NamedOf(fa.X.Type()) == pt {
+				return fa.X
+			}
+		case *ssa.Field:
+			if core.NamedOf(x.X.Type()) == pt {
+				return x.X
+			}
+		}
+		return nil
+	}
+	var norms []*ssa.Call
+	core.Calls(fn, func(c ssa.CallInstruction) {
+		if g := core.CalleeFn(c); g != nil && canon(g) == "normalize" {
+			if call, ok := c.(*ssa.Call); ok {
+				norms = append(norms, call)
+			}
+		}
+	})
+	n := 0
+	lab := labeler{}
+	for _, b := range fn.Blocks {
+		for _, in := range b.Instrs {
+			bo, ok := in.(*ssa.BinOp)
+			if !ok || (bo.Op != token.EQL && bo.Op != token.NEQ) {
+				continue
+			}
+			bx, by := baseOf(bo.X), baseOf(bo.Y)
+			if bx == nil || by == nil || bx == by {
+				continue
+			}
+			n++
+			ok2 := false
+			for _, nc := range norms {
+				recv := core.CallArg(nc, 0)
+				if (recv == bx || recv == by) && core.DominatesInstr(nc, bo) {
+					ok2 = true
+				}
+			}
+			r.Check(ok2, rule, p.FuncName(fn), lab.next("field compared with another platform"), p.Pos(bo.Pos()),
+				"a field of the parsed platform is compared with the local platform before normalize() ran on it: an alias (x86_64, aarch64) does not equal the canonical local value and the short notation is completed differently from its canonical spelling")
+		}
+	}
+	if n == 0 {
+		r.Held(rule, p.FuncName(fn), "field compared with another platform", p.Pos(fn.Pos()), "Parse compares no field of the parsed platform with another platform value directly")
 	}
 }
